@@ -277,7 +277,10 @@ fn rewrite_match_arm(
     };
 
     // Patterns
-    let pat_shape = match &arm.body.as_ref().unknown_error()?.kind {
+    // What follows the pattern is the body without the blocks that are going to be removed
+    // (`=> { 'label: { .. } }` is printed as `=> 'label: {`).
+    let (_, flattened_body) = flatten_arm_body(context, arm.body.as_ref().unknown_error()?, None);
+    let pat_shape = match &flattened_body.kind {
         ast::ExprKind::Block(_, Some(label)) => {
             // Some block with a label ` => 'label: {`
             // 7 = ` => : {`
